@@ -72,8 +72,25 @@ pub fn gen_contents(rng: &mut Rng, n: usize, max_len: usize, srcs: &[SrcKind], c
         .collect()
 }
 
+/// In one work out of four, every content that is stored raw (hint No) becomes a member of one
+/// opened archive file: `InputFile::new_range` over clones of one `File`, which share one file
+/// offset. Only for the plain adder (the deduplicating one reads at insertion time).
+pub fn share_archive(rng: &mut Rng, contents: &mut [ContentSpec]) {
+    if !rng.chance(1, 4) {
+        return;
+    }
+    for c in contents.iter_mut() {
+        if c.hint == Hint::No {
+            c.src = SrcKind::SharedArchive;
+        }
+    }
+}
+
 /// Create the pack described by `work` and read everything back; complaints go to the report.
 pub fn create_and_read_back(work: &Work, report: &mut BodyReport) {
+    if let Err(e) = gen::prepare_shared_archive(&work.contents, &work.scratch, work.aux_seed) {
+        simcore::harness_error(&format!("cannot prepare the shared archive: {e}"));
+    }
     let collector = Arc::new(Collector::default());
     let stats = Arc::new(SimReaderStats::default());
     let opts = gen::BuildOpts {
@@ -289,6 +306,42 @@ pub fn create_and_read_back(work: &Work, report: &mut BodyReport) {
         Ok(false) => report.complaints.push("check() of the created pack is false".into()),
         Err(e) => report.complaints.push(format!("check() of the created pack failed: {}", simcore::dump::err_class(&e))),
     }
+    drop(pack);
+    // Views are owned values: a helper that opens the pack, returns the regions and closes it
+    // again. They are read only after the pack object is gone (up to 24 of them, spread).
+    let step = (work.contents.len() / 24).max(1);
+    let held: Vec<(usize, jubako::reader::ByteRegion)> = {
+        let pack = match jubako::FileSource::open(&work.path).map(jubako::Reader::from).map_err(|e| e.to_string()).and_then(|r| {
+            jubako::reader::ContentPack::new(r).map_err(|e| simcore::dump::err_class(&e))
+        }) {
+            Ok(p) => p,
+            Err(e) => {
+                report.complaints.push(format!("second opening of the created pack failed: {e}"));
+                return;
+            }
+        };
+        (0..work.contents.len())
+            .step_by(step)
+            .filter_map(|i| match pack.get_content(jubako::ContentIdx::from(addresses[i])) {
+                Ok(Some(r)) => Some((i, r)),
+                _ => None, // already complained about above
+            })
+            .collect()
+    };
+    report.notes.insert("regions_read_after_their_pack_was_closed".into(), held.len() as u64);
+    for (i, region) in held {
+        let c = &work.contents[i];
+        let got = if i % 2 == 0 {
+            simcore::dump::read_region(&region)
+        } else {
+            region.get_slice(jubako::Offset::zero(), c.bytes.len()).map(|s| s.to_vec()).map_err(|e| simcore::dump::err_class(&e))
+        };
+        match got {
+            Ok(b) if b == **c.bytes => {}
+            Ok(_) => report.complaints.push(format!("content {i} read from a region that outlived its pack: wrong bytes")),
+            Err(e) => report.complaints.push(format!("content {i} ({} bytes) read from a region that outlived its pack: read failed: {e}", c.bytes.len())),
+        }
+    }
 }
 
 fn camino_path(p: &Path) -> jubako::Utf8PathBuf {
@@ -317,9 +370,10 @@ impl TCheck for C08 {
         let mut rng = Rng::derive(seed, "c08-work", work);
         let comp = *rng.pick(&[Comp::Zstd(3), Comp::Zstd(-5), Comp::Lz4(3), Comp::Lzma(1), Comp::Zstd(5), Comp::None]);
         let n = rng.range(1, 40) as usize;
-        let srcs = [SrcKind::Cursor, SrcKind::Cursor, SrcKind::Sim, SrcKind::File, SrcKind::FileRange, SrcKind::FilePeeked, SrcKind::FileRangeToEnd];
+        let srcs = [SrcKind::Cursor, SrcKind::Cursor, SrcKind::Sim, SrcKind::File, SrcKind::FileRange, SrcKind::FilePeeked, SrcKind::FileRangeToEnd, SrcKind::FileReplaced];
         let contents = gen_contents(&mut rng, n, 600, &srcs, comp);
         let mut contents = contents;
+        share_archive(&mut rng, &mut contents);
         // one work in sixteen stores a large incompressible content in a compressed cluster (its
         // stored size exceeds 1 MiB) between ordinary ones
         let big = work % 16 == 11 && comp != Comp::None;
@@ -443,7 +497,7 @@ impl TCheck for C08 {
             dedup: false,
             hard_err_call,
         });
-        let desc = json!({"giant_above_128_MiB": giant_one, "two_giants_above_256_MiB_one_worker": giant_two, "content_larger_than_the_whole_dispatch_queue": oversize, "one_cpu_host_no_worker_knob": one_cpu, "run_of_empty_compressible_contents": empty_run, "big_incompressible_content": big, "hard_input_error_at_read_call": hard_err_call, "comp": comp.name(), "contents": w.contents.iter().map(|c| format!("{}{}{}", c.bytes.len(), match c.hint {Hint::Yes=>"Y",Hint::No=>"N",Hint::Detect=>"D"}, match c.src {SrcKind::Cursor=>"c",SrcKind::File=>"f",SrcKind::FileRange=>"r",SrcKind::Sim=>"s",SrcKind::FilePeeked=>"p",SrcKind::FileRangeToEnd=>"e"})).collect::<Vec<_>>(),
+        let desc = json!({"giant_above_128_MiB": giant_one, "two_giants_above_256_MiB_one_worker": giant_two, "content_larger_than_the_whole_dispatch_queue": oversize, "one_cpu_host_no_worker_knob": one_cpu, "run_of_empty_compressible_contents": empty_run, "big_incompressible_content": big, "hard_input_error_at_read_call": hard_err_call, "comp": comp.name(), "contents": w.contents.iter().map(|c| format!("{}{}{}", c.bytes.len(), match c.hint {Hint::Yes=>"Y",Hint::No=>"N",Hint::Detect=>"D"}, match c.src {SrcKind::Cursor=>"c",SrcKind::File=>"f",SrcKind::FileRange=>"r",SrcKind::Sim=>"s",SrcKind::FilePeeked=>"p",SrcKind::FileRangeToEnd=>"e",SrcKind::SharedArchive=>"a",SrcKind::FileReplaced=>"x"})).collect::<Vec<_>>(),
                           "workers": workers, "cluster_max_blobs": max_blobs, "cluster_max_size": max_size});
         let w2 = Arc::clone(&w);
         Prepared {
